@@ -30,6 +30,7 @@ type Violation struct {
 	Detail   string
 	Tags     map[string]string
 	Schedule []int
+	Whats    []string
 	Stack    string
 	Reached  []string
 }
@@ -77,6 +78,7 @@ type Engine struct {
 	MaxDepth   int
 	MaxWidth   int // max values when concretising
 	MaxPreempt int
+	NoSleepSets bool // disable the sleep-set reduction (plain preemption-bounded search)
 	Bounds     map[string]int
 	NewSolver  func() (*solver.Solver, error)
 	Workers    int
@@ -110,6 +112,8 @@ type Engine struct {
 	nQ         uint64
 	Exhausted  string // non-empty: exploration was cut (budget/deadline)
 	SchedPts   int
+	LastSchedule []int
+	LastWhats []string
 	Fallbacks  int // assertion queries decided by the one-shot fallback
 }
 
@@ -321,6 +325,9 @@ func (r *run) fresh(name string, w int) *term.Term {
 		full = fmt.Sprintf("%s#%d", name, n)
 	}
 	if c := r.eng.Concrete; c != nil {
+		if w == 0 {
+			return term.Bool(c.Model[full] != 0)
+		}
 		return term.Const(w, c.Model[full])
 	}
 	v := term.Var(full, w)
@@ -398,6 +405,7 @@ func (r *run) record(v Violation) {
 	}
 	if r.sch != nil {
 		v.Schedule = append([]int{}, r.sch.schedule...)
+		v.Whats = append([]string{}, r.sch.whats...)
 	}
 	v.Reached = append([]string{}, r.reached...)
 	st := ""
@@ -538,6 +546,8 @@ func (e *Engine) account(r *run, res PathResult) {
 	e.Steps += int64(r.steps)
 	if r.sch != nil {
 		e.SchedPts += len(r.sch.schedule)
+		e.LastSchedule = r.sch.schedule
+		e.LastWhats = r.sch.whats
 	}
 	for n := range r.notes {
 		e.Notes[n] = true
